@@ -383,6 +383,8 @@ def _run_impl(case: dict) -> dict:
                     exe = 'sent'
                 except InvalidSessionError:
                     exe = 'refused'
+                except Exception as e:          # not refused, and the send failed
+                    exe = 'error:' + type(e).__name__
             elif k in ('populate', 'wl', 'pp'):
                 if not reader_alive():
                     inv = 1
@@ -975,7 +977,7 @@ class C16(Property):
     def correspondence(self, seed, tier, model_ok, widen=1):
         res = KResult()
         rng = random.Random(f'C16-{seed}')
-        n = (260 if tier == 'quick' else 5000) * widen
+        n = (600 if tier == 'quick' else 5000) * widen
         cases = list(DIRECTED) + [WITNESS_RESIDUAL] + [_gen_case(rng) for _ in range(n)]
         impl = common.parallel_map(_eval_case, cases, chunksize=4)
         model = None
